@@ -11,6 +11,7 @@
 import Frrs.Pipeline
 import Frrs.Backup
 import Frrs.Extracted
+import Frrs.Proofs.Cli
 namespace Frrs.C13
 open Frrs.Pipe
 set_option linter.unusedSimpArgs false
@@ -75,5 +76,11 @@ theorem backup_file_form (p : Bytes) :
 
 example : backupDest (some b!"out/my.bundle") false = .file b!"out/my.bundle" ∧ backupDest (some b!"bk dir") false = .inDir b!"bk dir" ∧
     backupDest (some b!".hidden") false = .inDir b!".hidden" ∧ backupDest (some b!"v1.2/") false = .file b!"v1.2/" := by decide +kernel
+
+
+/-- `--backup`, once read on the command line, is still set when the line ends (model of `parse_args`) -/
+theorem backup_flag_survives_the_line (badRegex args : List Bytes) (s o : Cli.CliOpts)
+    (h : Cli.loop badRegex args s = .ok o) (hs : s.backup = true) : o.backup = true :=
+  Cli.backup_sticky badRegex args s o h hs
 
 end Frrs.C13
